@@ -89,7 +89,7 @@ package tls
 
 // helper of handshake_messages.go: s.ReadUint24LengthPrefixed into a *[]byte
 //@ func readUint24LengthPrefixed
-//@   property C21 C33
+//@   property C21 C33 C34
 //@   let n = (*s)[0]*65536 + (*s)[1]*256 + (*s)[2]
 //@   requires s != nil && out != nil
 //@   modifies *s, *out
@@ -100,7 +100,7 @@ package tls
 
 // unmarshal is total, keeps the raw message, and on success the fields are exactly the wire fields.
 //@ func (*utlsCompressedCertificateMsg).unmarshal
-//@   property C21 C33
+//@   property C21 C33 C34
 //@   let n = data[9]*65536 + data[10]*256 + data[11]
 //@   requires m != nil
 //@   modifies m.raw, m.algorithm, m.uncompressedLength, m.compressedCertificateMessage
@@ -161,7 +161,7 @@ package tls
 // wire: type(1) length(3) extensions<0..2^16-1>, each extension = codepoint(2) data<0..2^16-1>.
 // Only ALPS extensions are legal; the decoded payload is exactly the wire payload.
 //@ func (*utlsClientEncryptedExtensionsMsg).unmarshal
-//@   property C22
+//@   property C22 C34
 //@   let L = data[4]*256 + data[5]
 //@   let cp1 = data[6]*256 + data[7]
 //@   let n1 = data[8]*256 + data[9]
